@@ -77,6 +77,9 @@ use crate::{
 mod conversion;
 use conversion::NextSubmission;
 
+#[cfg(all(test, feature = "verif"))]
+mod verif;
+
 /// A simple, passive object to allow the Celestia fee to be returned along with the
 /// `StartedSubmission` state when attempting to submit.
 struct StartedSubmissionAndFee {
